@@ -276,6 +276,9 @@ func (c *client) SendBatch(ctx context.Context, batch []hrpc.Call) (
 	var unretryableErrorSeen bool
 	var retries []hrpc.Call
 	backoff := backoffStart
+	// immediateRetries counts the rounds retried without backoff (connection
+	// or region errors only)
+	immediateRetries := 0
 
 	for {
 		// findClients reports errors by position in the batch it is given. On a
@@ -330,6 +333,12 @@ func (c *client) SendBatch(ctx context.Context, batch []hrpc.Call) (
 		// retries is empty), or the context is done.
 		if len(retries) == 0 || ctx.Err() != nil {
 			break
+		}
+		if !needBackoff {
+			// Like SendRPC: retry immediately to fail over fast, but start to
+			// backoff if it keeps failing, to not overwhelm HBase.
+			needBackoff = immediateRetries > 1
+			immediateRetries++
 		}
 		if needBackoff {
 			sp.AddEvent("retrySleep")
